@@ -55,6 +55,36 @@ def contract(a, b, mname, gap, terminal, local):
     return None
 
 
+# a matrix over two different alphabets built from a {(symbol1, symbol2): score} dictionary: the reference
+# scores come from the dictionary itself, not from the matrix object
+A1, A2 = seq.NucleotideSequence.alphabet_unamb, seq.NucleotideSequence.alphabet_amb
+DICT = {(x, y): (3 if x == y else (1 if y in "NRYWSMK" else -2)) + (A2.encode(y) % 3 == 0) for x in A1.get_symbols() for y in A2.get_symbols()}
+DICT_MATRIX = align.SubstitutionMatrix(A1, A2, DICT)
+DICT_REF = np.array([[DICT[(x, y)] for y in A2.get_symbols()] for x in A1.get_symbols()], dtype=np.int32)
+
+
+def dict_matrix_contract(a, b, gap, terminal, local):
+    s1, s2 = seq.NucleotideSequence(a), seq.NucleotideSequence(b, ambiguous=True)
+    if DICT_MATRIX.score_matrix().tolist() != DICT_REF.tolist():
+        return "SubstitutionMatrix built from a dictionary over two alphabets does not hold the dictionary's scores"
+    alis = align.align_optimal(s1, s2, DICT_MATRIX, gap_penalty=gap, terminal_penalty=terminal, local=local, max_number=20)
+    exp = brute(s1.code, s2.code, DICT_REF, gap, terminal, local)
+    for ali in alis:
+        if int(ali.score) != int(exp):
+            return f"reported score {ali.score}, maximum over all alignments under the dictionary's scores is {exp}"
+        tr = [tuple(int(x) for x in t) for t in ali.trace]
+        if tr and score_of(tr, s1.code, s2.code, DICT_REF, gap, terminal if not local else True, len(a), len(b)) != int(ali.score):
+            return f"recomputed score of {tr} differs from the reported {ali.score}"
+    return None
+
+
+for a, b in (("ACG", "ANR"), ("AC", "YCW"), ("GAT", "GNT"), ("TTA", "KTM"), ("C", "SBN")):
+    for gap in (-1, (-3, -1)):
+        for terminal, local in ((True, False), (False, False), (True, True)):
+            R.check("align_optimal: reported score == maximum over all alignments; returned alignments valid, honestly scored, distinct",
+                    "dictionary matrix over two alphabets", {"seq1": a, "seq2": b, "gap": gap, "terminal_penalty": terminal, "local": local},
+                    lambda a=a, b=b, gap=gap, terminal=terminal, local=local: dict_matrix_contract(a, b, gap, terminal, local))
+
 words = ["".join(w) for n in (1, 2, 3) for w in itertools.product("ACG", repeat=n)]
 if not R.thorough:
     words = words[::3] + ["AAC", "CAA", "ACA"]
